@@ -148,6 +148,43 @@ func separatorsSkipped(c *Ctx, rule string, fn *ssa.Function, emit func(in ssa.I
 		r.Check(rule, FuncName(fn), "a body row is emitted only when it is not a separator", in.Pos(), ok, "")
 	})
 	r.Floor(rule, "per-row emit calls in the row loop of "+FuncName(fn), n, 1)
+	separatorIdentity(c, rule)
+}
+
+// separatorIdentity: "is a separator" is a stored fact about how the row was made, not something inferred from
+// what the row happens to contain: IsSeparator returns a boolean field of the row, and that field is set (to true)
+// only on a row being built by the library's separator constructor. A data row with no cells is still a data row.
+func separatorIdentity(c *Ctx, rule string) {
+	r := c.R
+	row := c.Named("", "Row")
+	isSep := c.Method(row, true, "IsSeparator")
+	if isSep == nil {
+		return
+	}
+	var fld *types.Var
+	ok := true
+	for _, ret := range returnsOf(isSep) {
+		f, base := loadedField(results(ret)[0])
+		if f == nil || base != ssa.Value(isSep.Params[0]) {
+			ok = false
+			continue
+		}
+		if b, isB := f.Type().Underlying().(*types.Basic); !isB || b.Kind() != types.Bool {
+			ok = false
+		}
+		fld = f
+	}
+	r.Check(rule, FuncName(isSep), "whether a row is a separator is a flag stored in the row, not derived from its contents", isSep.Pos(), ok && fld != nil, "a data row that merely looks like a separator (no cell storage, no cells) would be dropped from the output")
+	if !ok || fld == nil {
+		return
+	}
+	n := 0
+	for _, fs := range c.StoresTo(fld) {
+		n++
+		b, isB := constBool(fs.St.Val)
+		r.Check(rule, FuncName(fs.Fn), "the separator flag is set only on a row under construction", fs.St.Pos(), fs.Fresh && isB && b, "an existing row changes kind")
+	}
+	r.Floor(rule, "writers of the separator flag", n, 1)
 }
 
 // rowsInOrder: the row loop ranges over the result of AllRows() from index 0 upward by one.
@@ -214,6 +251,9 @@ func runC05(c *Ctx) {
 	for f, d := range t.sanitizers {
 		r.Check("R05.1", FuncName(f), "is an RFC 4180 all-fields quoter by shape", f.Pos(), true, d)
 	}
+	checkFidelity(c, "R05.1", "csv", t.sanitizers)
+	importCellText(c, "R05.1", false)
+	importWriteDiscipline(c, "R05.1", "csv")
 	refusalChecks(c, "R05.2", fn, "a table with no columns is refused before the first write", noColumnsRefusal)
 
 	var emitRow *ssa.Function
@@ -555,6 +595,9 @@ func runC08(c *Ctx) {
 	for f, d := range t.sanitizers {
 		r.Check("R08.1", FuncName(f), "is the markdown cell escaper by shape", f.Pos(), true, d)
 	}
+	checkFidelity(c, "R08.1", "markdown", t.sanitizers)
+	importCellText(c, "R08.1", false)
+	importWriteDiscipline(c, "R08.1", "markdown")
 	refusalChecks(c, "R08.2", fn, "a table with no columns is refused before the first write", noColumnsRefusal)
 	refusalChecks(c, "R08.2", fn, "a table without headers is refused before the first write", nilHeadersRefusal)
 
